@@ -21,14 +21,16 @@ theorem C06_create_never_fatal (s : List Char) : createR s ≠ .fatal :=
 example : (match createR "t[5-1]".toList with | .err => true | _ => false) = true := by decide +kernel
 
 /-- A request line — any bytes, any client state, any world — ends the process only through the `hostlist_sort`
-    assertion: on the configured node list (request `nodes`) or on the plug list of some device (request `device`). -/
+    assertion: on the configured node list (request `nodes`) or on the plug list of some device (request `device`).
+    (`SortRes.Died r` is `r = .abort ∨ r = .fuel`; `.fuel`, the iteration bound of the sort mirror running out, is a
+    modelling artefact that no run has shown and that the model treats like the assert.) -/
 theorem C06_exit_only_by_sort_assert (w : W) (c : Cli) (line : Bytes) (h : (parseLine w c line).1.exited = true) :
-    w.exited = true ∨ sortHL w.cfg.nodes = .abort ∨ ∃ nd ∈ w.devs, sortHL (devHosts nd.2) = .abort :=
+    w.exited = true ∨ (sortHL w.cfg.nodes).Died ∨ ∃ nd ∈ w.devs, (sortHL (devHosts nd.2)).Died :=
   parseLine_exit_cause w c line h
 
 /-- That exit is live (known finding F19): if sorting the configured node list trips the assertion, the five bytes
-    `nodes` from any idle client end the process.  (`sortHL` mirrors glibc's merge sort with `partial def`s, so it cannot
-    be evaluated inside the logic; the concrete list `f[97-100,066,97-103]` is replayed by the differential harness.) -/
+    `nodes` from any idle client end the process.  (The hypothesis holds of the concrete list `f[97-100,066,97-103]`:
+    `Props/C14.lean`, `C14_sort_abort_counterexample`; it is also replayed by the differential harness.) -/
 theorem C06_nodes_sort_exit (w : W) (c : Cli) (hidle : c.cmd = none) (h : sortHL w.cfg.nodes = .abort) :
     (parseLine w c (bstr "nodes\n")).1.exited = true :=
   nodes_exit w c hidle h
@@ -101,8 +103,8 @@ example : (handleInput Ex.world (setFrom Ex.idle (bstr "\x00\xff\n\nexprange\nqu
 
 Full statement: `∀ w acc envs, (cliPostPoll w acc envs).exited = w.exited` (for any bytes on any number of connections
 the client side of a pass never leaves the process).  It is false as the code stands (`C06_nodes_sort_exit`, F19); the
-extra hypothesis `NoSortAbort` — `hostlist_sort` never trips `assert(hostrange_cmp(h1, h2) <= 0)` — excludes exactly
-the configurations and plug lists of F19. -/
+extra hypothesis `NoSortAbort` — `hostlist_sort` never trips `assert(hostrange_cmp(h1, h2) <= 0)` (nor, in the logic,
+runs out of the iteration bound of its mirror) — excludes exactly the configurations and plug lists of F19. -/
 
 /-- `cli_post_poll`: whatever the kernel reports for however many clients — accepts, reads of any bytes, EOF, errors,
     short writes — the client side of the pass does not leave the process -/
